@@ -153,7 +153,10 @@ static void expire(void)
     uint64_t now = sim_now_ns();
     for (int i = 0; i < S.nw; i++) {
         wstate *w = &S.W[i];
-        if (w->registered && !w->returned && w->timed && w->in_lo && w->deadline <= now) {
+        /* (with the granularity the library itself can see: after a jump of the virtual clock to
+         * a far deadline a waiter may be timed out a double's ulp before the model's integer
+         * clock reaches its deadline, and must not be counted as certainly queued then) */
+        if (w->registered && !w->returned && w->timed && w->in_lo && deadline_reached(now, w->deadline)) {
             w->in_lo = 0;
             if (S.L > 0)
                 S.L--;
@@ -279,7 +282,11 @@ static void do_wait(wl_actor *a, int dl_kind, int arg)
         SIM_CHECK(deadline_reached(sim_now_ns(), w->deadline), "cond:timedout-before-deadline", "ABT_cond_timedwait of actor %d returned TIMEDOUT %lu ns before its deadline", a->id,
                   (unsigned long)(w->deadline - sim_now_ns()));
         S.timeouts++;
-        w->in_lo = 0; /* expire() already removed it from L: its deadline has passed */
+        if (w->in_lo) { /* (normally expire() has removed it from L already: its deadline has passed) */
+            w->in_lo = 0;
+            if (S.L > 0)
+                S.L--;
+        }
     }
     S.waits_done++;
     unlock(a);
